@@ -121,7 +121,10 @@ def gen_ir(seed):
     if rng.chance(0.4):
         # a fiber whose whole body is a function of the helper module (finishes from a foreign module's frame)
         fibers[rng.below(nf)] = {"param": 1, "body": [], "kind": "worker"}
-    return {"fibers": fibers, "steps": rng.range(8, 45), "wrap": rng.chance(0.25), "sites": g.sites, "hmod": hmod}
+    # some programs have created and abandoned a few hundred short-lived fibers (suspended / never started) before the
+    # scenario proper starts: "a bounded number of fibers" bounds the ones alive at once, not the ones ever created
+    crowd = rng.choice([0, 0, 0, 0, 0, 0, 0, 300, 600])
+    return {"fibers": fibers, "steps": rng.range(8, 45), "wrap": rng.chance(0.25), "sites": g.sites, "hmod": hmod, "crowd": crowd}
 
 
 def render(ir):
@@ -266,6 +269,10 @@ def render(ir):
         block(f["body"], 3)
         emit("};", 2)
         emit("};", 1)
+    if ir.get("crowd"):
+        emit("var crowd = 0;", 1)
+        emit("for q in 0..%d { var tf = Fiber.new(|x| { var got = Fiber.yield(x + 1); return got; }); if q %% 2 == 0 { crowd = crowd + tf.call(q); } }" % ir["crowd"], 1)
+        emit('print(("ev", "crowd", crowd));', 1)
     emit("var mks = [%s];" % ", ".join("mk%d" % i for i in range(nf)), 1)
     for i in range(nf):
         emit("fibers.push(Fiber.new(mks[%d](%d)));" % (i, i), 1)
@@ -624,6 +631,9 @@ def model(ir, tape, faults, chooser=None):
         return None
 
     outcome = {"ok": True}
+    if ir.get("crowd"):
+        probes.inc("programs_after_hundreds_of_abandoned_fibers")
+        ev.append([s("crowd"), num(sum(q + 1 for q in range(0, ir["crowd"], 2)))])
     try:
         for _step in range(ir["steps"]):
             a = pick(12, "action")
